@@ -863,3 +863,157 @@ Proof.
   destruct Hinv as (Hnd & _). destruct Hinv' as (Hnd' & _). apply cancelled_ext; [exact Hnd|exact Hnd'|].
   intros p Hpz. destruct (prefix_under y z p Hz Hpz) as [->|Hpy]; [exact Hroot|]. destruct (Hfind p Hpy) as [-> _]. reflexivity.
 Qed.
+
+(* ------------------------------------------------------------------ supervisor events as process steps *)
+Lemma psup_plain T c s e u : root_own e = false -> signal_misuse (p_sup s) e = None -> e <> EKill -> (forall d, e <> EProcSchedule d) ->
+  step true (p_sup s) e = Ok u -> pstep1 T c s (PSup e) = PRun (with_sup s u).
+Proof.
+  intros Hr Hm Hk Hs H. cbn [pstep]. unfold sup_event. rewrite Hr.
+  destruct e as [d|d k| | |d|d|d|d names|d k]; try rewrite Hm; try rewrite H; try reflexivity; [exfalso; exact (Hs d eq_refl)|contradiction].
+Qed.
+
+Lemma psup_schedule T c s d u : step true (p_sup s) (EProcSchedule d) = Ok u ->
+  pstep1 T c s (PSup (EProcSchedule d)) =
+  PRun {| p_sup := u; p_pc := match d with [] => 0%nat | _ => p_pc s end; p_rootctx := p_rootctx s; p_started := match d with [x] => x :: p_started s | _ => p_started s end |}.
+Proof. intros H. cbn [pstep]. unfold sup_event. cbn [root_own]. rewrite H. reflexivity. Qed.
+
+(* (a, converse, continued) the restart: a DEAD / CANCELED service whose subtree has exited is reset by the next GC, its sleeper offers
+   the schedule request after the back-off, the runnable is started: exactly one instance, fresh context *)
+Theorem service_restarts T c h s x i :
+  prun1 T c h pinit = PRun s -> s_killed (p_sup s) = false -> find [x] (s_tree (p_sup s)) = Some i -> can true [x] i (s_tree (p_sup s)) = true ->
+  exists s', prun1 T c [PSup EGC; PSup (EBackoff [x]); PSup (EProcSchedule [x])] s = PRun s' /\ running [x] (p_sup s') = 1%nat /\ In x (p_started s') /\
+             (exists j, find [x] (s_tree (p_sup s')) = Some j /\ n_state j = SNew /\ n_flag j = false).
+Proof.
+  intros Hrun Hk Hx Hc. destruct (restart_goes_through _ _ [x] i (prun_sup _ _ _ _ _ Hrun) Hk Hx Hc) as (u3 & Hr & Hone & Hj).
+  cbn [run] in Hr. destruct (step true (p_sup s) EGC) as [u1| | |] eqn:E1; try discriminate.
+  destruct (step true u1 (EBackoff [x])) as [u2| | |] eqn:E2; try discriminate. destruct (step true u2 (EProcSchedule [x])) as [u3'| | |] eqn:E3; try discriminate. inv Hr.
+  cbn [prun]. rewrite (psup_plain T c s EGC u1 eq_refl eq_refl) by (try discriminate; try exact E1; intros d; discriminate).
+  rewrite (psup_plain T c (with_sup s u1) (EBackoff [x]) u2 eq_refl eq_refl) by (try discriminate; try exact E2; intros d; discriminate).
+  rewrite (psup_schedule T c (with_sup (with_sup s u1) u2) [x] u3 E3). eexists. split; [reflexivity|]. cbn [p_sup p_started]. split; [exact Hone|]. split; [left; reflexivity|exact Hj].
+Qed.
+
+(* when the GC may restart a service: it is DEAD / CANCELED, everything below it has exited, the root runnable is alive *)
+Lemma can_service u x i : Inv u -> find [x] (s_tree u) = Some i -> wanted (n_state i) = true ->
+  (forall z j, find z (s_tree u) = Some j -> is_prefix [x] z = true -> restartable true j = true) ->
+  (forall r, find [] (s_tree u) = Some r -> n_flag r = false /\ wanted (n_state r) = false) ->
+  can true [x] i (s_tree u) = true.
+Proof.
+  intros (Hnd & Hcl & _) Hx Hw Hsub Hroot. unfold can, can0. cbn [parent removelast]. rewrite Hw. cbn [andb].
+  assert (Hr : find [] (s_tree u) <> None) by (apply (Hcl [x] i []); [exact Hx|reflexivity]).
+  destruct (find [] (s_tree u)) as [r|] eqn:Er; [|contradiction]. destruct (Hroot r eq_refl) as [Hfl Hwr].
+  assert (ready true [x] (s_tree u) = true) as ->.
+  { unfold ready. apply forallb_forall. intros [z j] Hin. cbn [fst snd]. destruct (is_prefix [x] z) eqn:Ep; [|reflexivity]. apply (Hsub z j); [apply in_find; assumption|exact Ep]. }
+  assert (cancelled [] (s_tree u) = false) as ->.
+  { destruct (cancelled [] (s_tree u)) eqn:Ec; [|reflexivity]. apply cancelled_spec in Ec as (p & j & Hin & Hp & Hf). destruct p; [|discriminate].
+    apply (in_find _ _ _ Hnd) in Hin. rewrite Er in Hin. inv Hin. congruence. }
+  cbn [andb negb]. apply negb_true_iff. destruct (existsb _ (s_tree u)) eqn:Ex; [|reflexivity]. exfalso.
+  apply existsb_exists in Ex as ([p j] & Hin & H). cbn [fst snd] in H. apply andb_true_iff in H as [Hp Hc0]. apply strict_prefix_spec in Hp as [Hp Hne].
+  destruct p as [|a p']; [|destruct p'; [cbn in Hp; rewrite andb_true_r in Hp; apply Z.eqb_eq in Hp; subst; contradiction|cbn in Hp; rewrite andb_false_r in Hp; discriminate]].
+  apply (in_find _ _ _ Hnd) in Hin. rewrite Er in Hin. inv Hin. rewrite Hwr in Hc0. discriminate.
+Qed.
+
+(* ------------------------------------------------------------------ (d) the root runnable's own return *)
+(* the root's own cancel function has been called only if the supervisor was shut down or the root runnable's exit has been processed *)
+Lemma find_update_exited x d f t : (forall i, n_exited (f i) = n_exited i) -> option_map n_exited (find x (update d f t)) = option_map n_exited (find x t).
+Proof.
+  intros Hf. rewrite find_update. destruct (dn_eqb x d) eqn:E; [|reflexivity]. apply dn_eqb_eq in E. subst x. destruct (find d t); cbn [option_map]; [rewrite Hf|]; reflexivity.
+Qed.
+
+Definition RootInv (u : sst) : Prop := forall r, find [] (s_tree u) = Some r -> n_flag r = true -> s_killed u = true \/ n_exited r = true.
+
+Lemma step_rootinv u e u' : Inv u -> RootInv u -> step true u e = Ok u' -> RootInv u'.
+Proof.
+  intros Hinv Hr Hs. unfold RootInv in *.
+  destruct (match e with EKill => true | _ => false end) eqn:Ek.
+  { destruct e; try discriminate. cbn [step] in Hs. destruct (s_killed u); [discriminate|]. inv Hs. intros r _ _. left. reflexivity. }
+  assert (Hk : e <> EKill) by (intros ->; discriminate).
+  destruct (match e with EProcDied [] _ => true | _ => false end) eqn:Ed.
+  { destruct e as [|d k| | | | | | |]; try discriminate. destruct d; [|discriminate]. cbn [step] in Hs. destruct (s_killed u || _); [discriminate|].
+    destruct (proc_died [] k (s_tree u)) as [t'|] eqn:Ep; [|discriminate]. inv Hs. cbn [s_tree s_killed]. intros r Hf _. right.
+    destruct (proc_died_spec _ _ _ _ Ep) as (_ & _ & i & j & _ & Ej & Xj & _). rewrite Ej in Hf. inv Hf. exact Xj. }
+  assert (Hd : forall k, e <> EProcDied [] k) by (intros k ->; discriminate).
+  destruct (match e with EGC => is_target (gct (s_tree u)) [] | _ => false end) eqn:Eg.
+  { destruct e; try discriminate. cbn [step] in Hs. destruct (s_killed u); [discriminate|]. destruct (gc true (s_tree u)) as [t' new] eqn:EG. inv Hs. cbn [s_tree s_killed].
+    intros r Hf Hfl. exfalso. assert (Et : t' = fst (gc true (s_tree u))) by (rewrite EG; reflexivity). subst t'. rewrite find_gc, Eg in Hf.
+    destruct (below_target (gct (s_tree u)) []); [discriminate|]. destruct (find [] (s_tree u)); [|discriminate]. cbn in Hf. inv Hf. discriminate. }
+  assert (Hg : e = EGC -> is_target (gct (s_tree u)) [] = false) by (intros ->; exact Eg).
+  pose proof (step_root_flag _ _ _ Hs Hk Hd Hg) as Hflag.
+  (* the exit mark of the root is touched only by the two cases above *)
+  assert (Hex : option_map n_exited (find [] (s_tree u')) = option_map n_exited (find [] (s_tree u))).
+  { clear Hflag. destruct e as [d|d k| | |d|d|d|d names|d k]; cbn [step] in Hs.
+    - destruct (s_killed u || _); [discriminate|]. destruct (find d (s_tree u)); [|discriminate]. inv Hs. reflexivity.
+    - destruct (s_killed u || _); [discriminate|]. destruct (proc_died d k (s_tree u)) as [t'|] eqn:Ep; [|discriminate]. inv Hs. cbn [s_tree].
+      destruct (proc_died_spec _ _ _ _ Ep) as (_ & Hsame & _). assert (Hne : [] <> d) by (intros <-; exact (Hd k eq_refl)). specialize (Hsame [] Hne).
+      destruct (find [] (s_tree u)), (find [] t'); try contradiction; [|reflexivity]. cbn [option_map]. destruct Hsame as [_ ->]. reflexivity.
+    - destruct (s_killed u); [discriminate|]. destruct (gc true (s_tree u)) as [t' new] eqn:EG. inv Hs. cbn [s_tree].
+      assert (Et : t' = fst (gc true (s_tree u))) by (rewrite EG; reflexivity). subst t'. rewrite gc_leaves_others; [reflexivity| |exact Eg].
+      destruct (below_target (gct (s_tree u)) []) eqn:B; [|reflexivity]. apply below_target_spec in B as (r & b & _ & Hp). apply strict_prefix_spec in Hp as [Hp Hne].
+      destruct r; [contradiction|discriminate].
+    - contradiction.
+    - destruct (has (d, TSleep true) (s_toks u)); [inv Hs; reflexivity|]. destruct (has (d, TSleep false) (s_toks u)); [inv Hs; reflexivity|discriminate].
+    - destruct (negb _); [discriminate|]. destruct (find d (s_tree u)) as [i|]; [|discriminate]. destruct (n_state i); inv Hs; cbn [s_tree with_toks]; try reflexivity.
+      apply find_update_exited. reflexivity.
+    - destruct (negb _); [discriminate|]. destruct (find d (s_tree u)) as [i|]; [|discriminate]. destruct (n_state i); inv Hs; cbn [s_tree with_toks]; try reflexivity.
+      apply find_update_exited. reflexivity.
+    - destruct (negb _); [discriminate|]. destruct (run_group d names (s_tree u)) as [t' new| |] eqn:Er; try discriminate; inv Hs; cbn [s_tree]; [|reflexivity].
+      unfold run_group in Er. destruct (find d (s_tree u)) as [i|]; [|discriminate]. destruct (n_state i); try discriminate.
+      destruct (existsb _ names); [discriminate|]. destruct (negb (nodupz names)); [discriminate|]. inv Er. rewrite find_app. destruct (find [] (s_tree u)); [reflexivity|].
+      change (map (fun x => (d ++ [x], {| n_state := SNew; n_flag := false; n_group := ngroups d (s_tree u); n_exited := false |})) names)
+        with (map (mkchild (ngroups d (s_tree u)) d) names). rewrite find_children.
+      assert (existsb (fun x => dn_eqb [] (d ++ [x])) names = false) as ->; [|reflexivity].
+      destruct (existsb (fun x => dn_eqb [] (d ++ [x])) names) eqn:Ex; [|reflexivity]. apply existsb_exists in Ex as (x & _ & E). apply dn_eqb_eq in E. destruct d; discriminate.
+    - destruct (negb _); [discriminate|]. inv Hs. reflexivity. }
+  intros r Hf Hfl. destruct (find [] (s_tree u)) as [r0|] eqn:E0; [|rewrite Hf in Hflag; discriminate]. rewrite Hf in Hflag, Hex. cbn in Hflag, Hex. inv Hflag. inv Hex.
+  destruct (Hr r0 eq_refl (eq_trans (eq_sym H0) Hfl)) as [Hkk|Hxx]; [|right; congruence]. left.
+  destruct (no_starts_after_kill true [e] u u' [] Hkk) as [H _]; [cbn [run]; rewrite Hs; reflexivity|exact H].
+Qed.
+
+Lemma run_rootinv evs : forall u u', Inv u -> RootInv u -> run true evs u = Ok u' -> RootInv u'.
+Proof.
+  induction evs as [|e r IH]; intros u u' Hinv Hr H; cbn [run] in H; [inv H; exact Hr|].
+  destruct (step true u e) as [u1| | |] eqn:E; try discriminate. apply (IH u1 u'); [eapply step_inv; eassumption|eapply step_rootinv; eassumption|exact H].
+Qed.
+
+Theorem node_rootinv T c h s : prun1 T c h pinit = PRun s -> RootInv (p_sup s).
+Proof.
+  intros H. eapply run_rootinv; [exact inv_init| |exact (prun_sup _ _ _ _ _ H)]. intros r Hf Hfl. cbn in Hf. inv Hf. discriminate.
+Qed.
+
+(* (d1) `<-ctx.Done()` in the root runnable returns only after processKill: the root's context is cancelled by nothing else while the
+   root runnable runs *)
+Theorem root_wait_returns_only_after_kill T c h s f s' :
+  prun1 T c h pinit = PRun s -> nth_error (prog_of T c) (p_pc s) = Some RWaitCtx -> pstep1 T c s (PRoot f) = PRun s' -> s_killed (p_sup s) = true.
+Proof.
+  intros Hrun Hpc Hstep. pose proof (node_inv _ _ _ _ Hrun) as Hinv. pose proof (node_rootinv _ _ _ _ Hrun) as Hr.
+  cbn [pstep] in Hstep. unfold root_step in Hstep. destruct (negb (has ([], TInst) (s_toks (p_sup s)))) eqn:Eh; [discriminate|]. apply negb_false_iff, has_in in Eh.
+  rewrite Hpc in Hstep. destruct (cancelled [] (s_tree (p_sup s))) eqn:Ec; [|discriminate].
+  apply cancelled_spec in Ec as (p & i & Hin & Hp & Hfl). destruct p; [|discriminate]. pose proof Hinv as (Hnd & _). apply (in_find _ _ _ Hnd) in Hin.
+  destruct (Hr i Hin Hfl) as [Hk|Hx]; [exact Hk|]. exfalso. destruct (token_node _ _ _ Hinv Eh) as (i' & Ei & Hne & _). rewrite Hin in Ei. inv Ei. congruence.
+Qed.
+
+(* (d2) the root runnable returns an error (a supervisor.Run was rejected, a constructor failed) or panics with capture on, and the exit
+   is processed: the root is DEAD, every service's context is cancelled (they are nested in the root's) *)
+Theorem root_failure_cancels_every_service u k t' i :
+  Inv u -> proc_died [] k (s_tree u) = Some t' -> find [] (s_tree u) = Some i -> ~ (n_state i = SDone /\ k = RNil) -> ~ (cancelled [] (s_tree u) = true /\ k = RCtx) ->
+  (exists j, find [] t' = Some j /\ n_state j = SDead /\ n_flag j = true) /\
+  (forall z a, find z (s_tree u) = Some a -> exists a', find z t' = Some a' /\ cancelled z t' = true /\ (z <> [] -> n_state a' = n_state a)).
+Proof.
+  intros Hinv Hpd Hi Hn1 Hn2. pose proof Hinv as (Hnd & _). destruct (died_unexpected [] k (s_tree u) t' i Hnd Hpd Hi Hn1 Hn2) as [(j & Ej & Sj & Fj & _) H2].
+  split; [exists j; auto|]. intros z a Hz.
+  assert (Hc : forall a', find z t' = Some a' -> cancelled z t' = true).
+  { intros a' _. apply cancelled_spec. exists [], j. split; [apply find_in; exact Ej|]. split; [reflexivity|exact Fj]. }
+  destruct z as [|b z'].
+  - exists j. split; [exact Ej|]. split; [apply (Hc j Ej)|]. intros H. contradiction.
+  - destruct (H2 (b :: z') a Hz) as (a' & E1 & E2 & _); [discriminate|]. exists a'. split; [exact E1|]. split; [apply (Hc a' E1)|]. intros _. exact E2.
+Qed.
+
+(* ... and once everything below has exited, the GC restarts the root: the whole tree is dropped, the root is NEW with a fresh context,
+   its sleeper offers the schedule request after the back-off; the root runnable then starts every service again *)
+Theorem root_restart_drops_the_tree u i : Inv u -> find [] (s_tree u) = Some i -> can true [] i (s_tree u) = true ->
+  find [] (fst (gc true (s_tree u))) = Some (reset_info i) /\
+  In ([], TSleep (match n_state i with SDead => true | _ => false end)) (snd (gc true (s_tree u))) /\
+  (forall z, z <> [] -> find z (fst (gc true (s_tree u))) = None).
+Proof.
+  intros (Hnd & _) Hi Hc. destruct (gc_restarts _ _ _ Hnd Hi Hc) as (H1 & H2 & H3). split; [exact H1|]. split; [exact H2|].
+  intros z Hz. apply H3. apply strict_prefix_spec. split; [reflexivity|congruence].
+Qed.
